@@ -579,14 +579,16 @@ class Obl:
         uw = [r for r in others if r['status'] == 'FAILURE' and ('unwind' in r.get('property', '') or 'recursion' in r.get('property', ''))
               and not any(re.search(p_, r.get('property', '')) for p_ in s.get('expected_fail', []))]
         undecided_props = [r for r in others if r['status'] not in ('SUCCESS', 'FAILURE')]
-        if uw and undecided_props:
+        if uw and undecided_props and not [r for r in others if r['status'] == 'FAILURE' and r not in uw]:
             hang = self.hang_check(cb, b, uw[0], timeout)
             if hang:
                 return hang
             return self.undecided('unwinding bound too small: %s (cbmc leaves %d dependent properties UNKNOWN)' % (', '.join(r['property'] for r in uw[:4]), len(undecided_props)))
-        if undecided_props:
+        definite = [r for r in others if r['status'] == 'FAILURE' and 'unwind' not in r.get('property', '') and 'recursion' not in r.get('property', '')]
+        if undecided_props and not definite:
             return self.undecided('solver left %d properties undecided (status %s), e.g. %s' % (len(undecided_props), undecided_props[0]['status'], undecided_props[0].get('property')))
-        bad = [r for r in others if r['status'] != 'SUCCESS']
+        # a definite FAILURE stands even if CBMC gave up on other properties afterwards (they stay out of the count)
+        bad = [r for r in others if r['status'] == 'FAILURE'] if definite else [r for r in others if r['status'] != 'SUCCESS']
         self.res['samples'] = [{'property': r.get('property'), 'description': r.get('description'), 'status': r['status']}
                                for r in (others[:2] + [r for r in others if 'postcondition' in r.get('property', '') or 'assertion' in r.get('property', '')][:4])]
         if not bad:
